@@ -697,7 +697,12 @@ def power_forms(env, L, exps, qexps):
         binary(env, "**", L, e)
     for x, units in qexps:
         binary(env, "**", L, env.mq(x, units))
-    binary(env, "**", 2, L)
+    if env.table.dims(L):
+        binary(env, "**", 2, L)          # must be refused: a dimensional exponent
+    else:
+        # dimensionless (generated) unit: pint computes 2 ** root value; keep the exponent small
+        small = env.mq(L.x * 0 + (F(3) if env.exact else 3.0), L.units)
+        binary(env, "**", 2, small)
 
 
 # ---------------------------------------------------------------------------
